@@ -226,6 +226,23 @@ def _field_positions(f, cls):
     return res
 
 
+def _emission_statements(g):
+    '''the statements of a text generator with its once-assigned pure locals (navigations from inst, attribute reads) filled in
+    where they are used: the generator only reads the model, so when such a value is computed does not matter'''
+    from .. import normal
+    from .common import resolve_locals
+    out = []
+    for st in body_without_doc(g):
+        if isinstance(st, ast.Assign) and len(st.targets) == 1 and isinstance(st.targets[0], ast.Name) and normal.is_pure(st.value) and \
+                sum(1 for n in ast.walk(g) if isinstance(n, ast.Name) and isinstance(n.ctx, ast.Store) and n.id == st.targets[0].id) == 1:
+            continue
+        if isinstance(st, ast.Expr):
+            out.append(ast.copy_location(ast.Expr(value=resolve_locals(g, st.value)), st))
+        else:
+            out.append(st)
+    return out
+
+
 def roles(ctx):
     repo = ctx.repo
     sc = get_schema(repo)
@@ -321,7 +338,7 @@ def roles(ctx):
     g = th['V_BIN']
     want = ["self.buf('(')", 'self.accept(one(inst).V_VAL[802]())', "self.buf(' ', inst.Operator, ' ')",
             'self.accept(one(inst).V_VAL[803]())', "self.buf(')')"]
-    r.check(pm.match_canon(want, body_without_doc(g)) is not None, 'V_BIN is generated as ( <R802> operator <R803> )', g, construct=TG + '.accept_V_BIN',
+    r.check(pm.match_canon(want, _emission_statements(g)) is not None, 'V_BIN is generated as ( <R802> operator <R803> )', g, construct=TG + '.accept_V_BIN',
             key='gen-binop', msg='accept_V_BIN does not emit "(" <R802 operand> operator <R803 operand> ")"')
     ai_pb = repo.func(AP + '.accept_AssignmentNode')
     ok = pm.contains('_R = self.accept(node.expression)', ai_pb) and pm.contains('_L = self.accept(node.variable_access)', ai_pb)
